@@ -13,6 +13,35 @@ import (
 // innermostFalcoFrame names the innermost function of falco on the stack of a
 // panic being recovered (package.Func, no line numbers so that keys survive
 // unrelated edits).
+// spinFrame names the loop that does not terminate: the innermost parser
+// frame when the parser is on the stack (the lexer below it merely serves the
+// calls), otherwise the innermost falco frame.
+func spinFrame() string {
+	pcs := make([]uintptr, 64)
+	n := runtime.Callers(2, pcs)
+	frames := runtime.CallersFrames(pcs[:n])
+	first := ""
+	for {
+		f, more := frames.Next()
+		if strings.Contains(f.Function, "ysugimoto/falco/v2/") {
+			fn := f.Function[strings.Index(f.Function, "falco/v2/")+len("falco/v2/"):]
+			if first == "" {
+				first = fn
+			}
+			if strings.HasPrefix(fn, "parser.") {
+				return fn
+			}
+		}
+		if !more {
+			break
+		}
+	}
+	if first == "" {
+		return "?"
+	}
+	return first
+}
+
 func innermostFalcoFrame() string {
 	pcs := make([]uintptr, 64)
 	n := runtime.Callers(2, pcs)
